@@ -389,6 +389,22 @@ Theorem C14_interrupted_file : forall si others fs allb g gb m,
   end.
 Proof. exact interrupted_file. Qed.
 
+(* C14 for the encoder as written: provisional header, the encoder model's frames of the blocks encoded so far, the
+   frame of the next block cut at any byte *)
+Theorem C14_encoder_interrupted_file : forall o L si others blocks bytes b gb m,
+  enc_blocks o L (si_rate si) (si_bps si) 0 blocks = Some bytes ->
+  enc_frame_bytes o L (si_rate si) (si_bps si) (N.of_nat (length blocks)) b = Some gb ->
+  si_ok si -> blocks_ok others ->
+  Forall (fun x => block_ok si (si_bps si) x /\ 14 < block_len x) (blocks ++ [b]) ->
+  N.of_nat (length blocks) + 1 <= MAX_FRAME_NUMBER + 1 ->
+  (m < length gb)%nat ->
+  (si_total si = 0 \/ blocks_samples blocks + block_len b <= si_total si) ->
+  match dec_stream (file_of si others (bytes ++ firstn m gb)) with
+  | Some (si', out, e) => si' = si /\ out = map interleave_frame blocks /\ is_end_panic e = false
+  | None => False
+  end.
+Proof. exact enc_interrupted_file. Qed.
+
 (* non-vacuity: a concrete well-formed frame (16-bit mono, 4 samples, FIXED order 1, one Rice partition) *)
 Definition ex_hdr : header := {| h_variable := false; h_bs_code := 6; h_bs := 4; h_rate_code := 9; h_rate := 44100;
   h_assign := 0; h_bps_code := 4; h_bps := 16; h_number := 0 |}.
